@@ -162,6 +162,19 @@ class Cmp:
         return bool(self.find(e, ctx, env))
 
 
+def const_values(ctx, pat):
+    """Evaluated integer values of the named constants matching the glob."""
+    cache = ctx._leaf_memo.setdefault(("constvals",), {})
+    if pat not in cache:
+        out = []
+        for c in ctx.facts.names:
+            for k in ctx.facts.crates[c].meta["consts"]:
+                if isinstance(k.get("v"), int) and glob(pat, k["path"]):
+                    out.append(k["v"])
+        cache[pat] = out
+    return cache[pat]
+
+
 def is_poll_switch(e):
     """switchInt(discriminant(<F as Future>::poll(..))) - the state test of an await loop."""
     if e[0] != "discr":
@@ -524,9 +537,15 @@ class Guards:
             t = self.body.blocks[b]["t"]
             if t.get("dty") not in (None, "bool") and e[0] != "discr":
                 for A, B in ((spec.A, spec.B), (spec.B, spec.A)):
-                    lits = [p for p in B if isinstance(p, str) and p.startswith("lit:") and p[4:].lstrip("-").isdigit()]
-                    if len(B) == 1 and len(lits) == 1 and A and has_all(self.ctx.leaves(e, self.env), A):
-                        v = int(lits[0][4:])
+                    if len(B) != 1 or not isinstance(B[0], str) or not A or not has_all(self.ctx.leaves(e, self.env), A):
+                        continue
+                    vals = []
+                    if B[0].startswith("lit:") and B[0][4:].lstrip("-").isdigit():
+                        vals = [int(B[0][4:])]
+                    elif B[0].startswith("const:"):
+                        # `match x.len() { SOME_CONST => .. }`: the arm value is the evaluated constant
+                        vals = const_values(self.ctx, B[0][6:])
+                    for v in vals:
                         if v in [tv for tv, _ in t["targets"]]:
                             return dict(intswitch=v)
             if self.via_callee(e, spec):
